@@ -29,6 +29,21 @@ var layoutSpaces = []string{"\u1680", "\u2000", "\u2009", "\u200a", "\u2028", "\
 
 var layoutComments = []string{"; c", ";; note (x) \"y\"", ";", "; ;;;; optimize:false", ";;;; optimize:false", ";;;; reordering:false, fast_evaluation:false", "; )(", ";; \"unterminated", ";;;; bogus directive", "; é　x", ";\t tab"}
 
+// commentFragments: what a generated comment is made of - words, token look-alikes, and every
+// white-space character that is not the line feed (a comment ends at the line feed only).
+var commentFragments = []string{"c", "note", "(x)", "\"y\"", "40", ")", "(", "true", "x", ";", " ", "\u2028", "\u2029", "\u0085", "\r", "\v", "\f", "\u00a0", "\u3000", "\u1680", "\u2028 40", "\u2029(+ 1", "\u0085\"s", "\r 7 8", "\f)", "\v[1"}
+
+func genComment(t *rapid.T) string {
+	if rapid.Bool().Draw(t, "cmt_fixed") {
+		return rapid.SampledFrom(layoutComments).Draw(t, "cmt")
+	}
+	c := rapid.SampledFrom([]string{";", "; ", ";;", ";;; "}).Draw(t, "cmt_head")
+	for i, n := 0, rapid.IntRange(1, 4).Draw(t, "cmt_n"); i < n; i++ {
+		c += rapid.SampledFrom(commentFragments).Draw(t, "cmt_frag")
+	}
+	return c
+}
+
 func needSeparator(prev, next string, infix bool) bool {
 	if prev == "" {
 		return false
@@ -61,7 +76,7 @@ func relayout(t *rapid.T, toks []string, infix, minimal bool) string {
 		case i == 0:
 		case k == 0 && !need:
 		case k == 1 && !minimal:
-			c := rapid.SampledFrom(layoutComments).Draw(t, "cmt")
+			c := genComment(t)
 			sb.WriteString(rapid.SampledFrom([]string{"", " ", "\n"}).Draw(t, "pre") + c + "\n" + rapid.SampledFrom([]string{"", "  ", "\t"}).Draw(t, "post"))
 		case k == 0 || minimal:
 			sb.WriteString(" ")
@@ -302,7 +317,7 @@ func checkC14(c C14Case, r *Rec) *Violation {
 
 var propC14 = Prop[C14Case]{
 	ID:    "C14",
-	Rule:  "(a) typed random programs (prefix and infix) with layout-sensitive string literals, rendered canonically and re-laid-out three times (one with minimal spacing): between any two tokens nothing where the token rules allow it, any of 22 Unicode white-space forms (every rune class unicode.IsSpace knows), line breaks, or ;-comments containing parentheses, quotes and directive look-alikes (proper ;;;; lines only after the first token), optional trailing comment; (b) a valid directive for a drawn subset put before the first token; (c) token soups with string literals and comments that mostly do not compile. Oracles: every re-layout compiles to the same Dump/DumpTable and the same outcomes on 2 bindings; the directive-prefixed text equals the program of the named subset; for every input lexAll(IndentByParentheses^k(s)), k=1..3, equals lexAll(s) under the independent lexer (tokens and comments in order, comments modulo trailing white space, unterminated string = one pseudo-token) and the formatted text compiles to the same program (or fails likewise). Non-trivial = the re-layout contains a comment or a non-ASCII space, or a string literal with a layout-sensitive character; distinct by text",
+	Rule:  "(a) typed random programs (prefix and infix) with layout-sensitive string literals, rendered canonically and re-laid-out three times (one with minimal spacing): between any two tokens nothing where the token rules allow it, any of 22 Unicode white-space forms (every rune class unicode.IsSpace knows), line breaks, or ;-comments containing parentheses, quotes, token look-alikes, directive look-alikes and every white-space character other than the line feed (U+2028, U+2029, U+0085, CR, VT, FF ...) (proper ;;;; lines only after the first token), optional trailing comment; (b) a valid directive for a drawn subset put before the first token; (c) token soups with string literals and comments that mostly do not compile. Oracles: every re-layout compiles to the same Dump/DumpTable and the same outcomes on 2 bindings; the directive-prefixed text equals the program of the named subset; for every input lexAll(IndentByParentheses^k(s)), k=1..3, equals lexAll(s) under the independent lexer (tokens and comments in order, comments modulo trailing white space, unterminated string = one pseudo-token) and the formatted text compiles to the same program (or fails likewise). Non-trivial = the re-layout contains a comment or a non-ASCII space, or a string literal with a layout-sensitive character; distinct by text",
 	Gen:   genC14,
 	Check: checkC14,
 }
